@@ -134,6 +134,8 @@ func wfRangeReq(o *ObjectRangeRequest) bool {
 //@ loop 1 step [C12] data:   imp(old(r.chunkRemain) > 0,
 //@                             rd_pos(r.inner) == old(rd_pos(r.inner)) + (n - old(n)) &&
 //@                             r.notFirstChunk == old(r.notFirstChunk))
+//@ loop 1 step [C12] bytes:  imp(old(r.chunkRemain) > 0, all(i, old(n), n, p[i] == rd_data(r.inner)[old(rd_pos(r.inner)) + (i - old(n))]) &&
+//@                             all(i, 0, old(n), p[i] == old(p[i])))
 //@ loop 1 step [C12] header: imp(old(r.chunkRemain) <= 0 && err__1 == nil,
 //@                             n == old(n) && r.notFirstChunk &&
 //@                             rd_pos(r.inner) == old(rd_pos(r.inner)) + ite(old(r.notFirstChunk), 2, 0)
@@ -175,6 +177,7 @@ func wfRangeReq(o *ObjectRangeRequest) bool {
 //@ requires          wf:      h != nil && h.inner != nil && h.hash != nil
 //@ ensures [C08,C09] n:       0 <= n && n <= len(p)
 //@ ensures [C08]     pos:     rd_pos(h.inner) == old(rd_pos(h.inner)) + n
+//@ ensures [C01]     data:    all(i, 0, n, p[i] == rd_data(h.inner)[old(rd_pos(h.inner)) + i])
 //@ ensures [C08]     eof:     imp(err == io.EOF, h.sum != nil && (h.expected == nil || bytes.Equal(h.sum, h.expected)))
 //@ ensures [C08]     bad:     imp(old(h.expected) != nil && err != nil && errcode(err) == ErrBadDigest, true)
 //@ refines io.Reader.Read n
